@@ -1,5 +1,7 @@
 from __future__ import annotations
 
+import copy
+
 import contextlib
 import importlib
 import numbers
@@ -89,7 +91,10 @@ class RandomState:
                 meta,
             ) = _choice_validate_params(self, a, size, replace, p, 0, chunks)
 
-            return new_collection(RandomChoice(a_val, a_expr, chunks, meta, self._numpy_state, replace, p_expr))
+            # the node keeps a snapshot of the state; this generator moves on
+            expr = RandomChoice(a_val, a_expr, chunks, meta, copy.deepcopy(self._numpy_state), replace, p_expr)
+            self._numpy_state.bytes(16)
+            return new_collection(expr)
 
     @derived_from(np.random.RandomState, skipblocks=1)
     def exponential(self, scale=1.0, size=None, chunks="auto", **kwargs):
